@@ -44,10 +44,17 @@ UNIVERSE = [
 def gen_unit(rng):
     n = rng.choice((0, 1, 2, 3, 5, 8, 13, 21, 40))
     pool = rng.sample(UNIVERSE, rng.choice((2, 3, 5, 8, len(UNIVERSE))))
-    mode = rng.choice(["plain", "plain", "select1", "select2", "wrapped"])
+    mode = rng.choice(["plain", "plain", "select1", "select2", "wrapped", "computed", "dupname"])
+    if mode == "computed":
+        # the selected value is computed: results that print alike (10 from 10.3 and from 10) are duplicates
+        nums = ["10.3", "10", "10.4", "-2.5", "-3", "6.5", "7", "7.0", "10.6", "11", "0", "0.4", "-0.4", "1e1", "2.5", "3", "-3.0", "6", "1e15", "999999999999999.6"]
+        f = rng.choice(["(round .x)", "(floor .x)", "(ceil .x)", "(abs .x)", "(+ .x 0)", "(* .x 1)", "(- (- .x))", "(/ .x 1)", "(% .x 100)", "(round (/ .x 2))",
+                        "(size (range (% (abs (round .x)) 50)))", "(sum (push [] .x))", "(as_number .x)", "(default .nothing (floor .x))"])
+        items = ['{"x":%s,"z":%d}' % (rng.choice(nums), rng.randint(0, 1000)) for _ in range(n)]
+        return {"input": rng.choice(["\n", " "]).join(items).encode("utf-8"), "args": ["--select", f + "=x"], "mode": mode}
     items = []
     for _ in range(n):
-        if mode in ("select2",):
+        if mode in ("select2", "dupname"):
             a, b = rng.choice(pool), rng.choice(pool)
             parts = []
             if rng.random() < 0.8:
@@ -61,7 +68,7 @@ def gen_unit(rng):
             items.append('{"x":%s,"z":%d}' % (a[0], rng.randint(0, 1000)) if rng.random() < 0.85 else '{"z":%d}' % rng.randint(0, 1000))
         else:
             items.append(rng.choice(pool)[0])
-    args = {"plain": [], "select1": ["--select", ".x=x"], "select2": ["--select", ".x=x", "--select", ".y=y"],
+    args = {"plain": [], "select1": ["--select", ".x=x"], "select2": ["--select", ".x=x", "--select", ".y=y"], "dupname": [],
             "wrapped": ["--select", "(push [] .x)=w"]}[mode]
     return {"input": rng.choice(["\n", " ", "\n\n"]).join(items).encode("utf-8"), "args": args, "mode": mode}
 
@@ -78,8 +85,31 @@ def model_key(v):
     return ("o", tuple(sorted((k, model_key(x)) for k, x in v.items())))
 
 
+def run_dupname(ctx, unit):
+    """Two selections under one name are still two columns of the row key: --unique must keep exactly the rows it keeps when
+    the columns have different names (csv output shows both columns either way)."""
+    st = ctx.stats
+    a = core.Case(["-o", "csv", "--select", ".x=v", "--select", ".y=v", "--unique"], unit["input"])
+    b = core.Case(["-o", "csv", "--select", ".x=a", "--select", ".y=b", "--unique"], unit["input"])
+    oa, ob = ctx.drv.run_many([a, b])
+    if oa.result != "ok" or ob.result != "ok":
+        st.inconc("dupname_run_failed")
+        return
+    st.count("conclusive")
+    ra, rb = oa.stdout.split(b"\n", 1)[1:], ob.stdout.split(b"\n", 1)[1:]
+    if ra != rb:
+        st.violation("unique-depends-on-column-names", "--unique keeps other rows when two selections share a name", unit,
+                     {"same_name": oa.stdout[:600], "different_names": ob.stdout[:600]})
+        return
+    st.count("dupname_comparisons")
+    if ob.stdout.count(b"\n") > 2:
+        st.see("nontrivial", (hash(unit["input"]) & 0xFFFFFFF, "dupname"))
+
+
 def run_unit(ctx, unit):
     st = ctx.stats
+    if unit["mode"] == "dupname":
+        return run_dupname(ctx, unit)
     base = core.Case(unit["args"], unit["input"])
     uq = core.Case(unit["args"] + ["--unique"], unit["input"])
     o0, o1 = ctx.drv.run_many([base, uq])
